@@ -22,6 +22,10 @@ type app struct {
 func New(ctx context.Context, cfg config.Config) (*app, error) {
 	container := di.New(cfg)
 
+	// The container builds its parts lazily and without synchronisation: build
+	// everything request handlers will touch before serving.
+	container.StoreService()
+
 	container.Pool().Run(ctx)
 	deleteFiles, err := container.Core().Load(ctx)
 	if err != nil {
